@@ -60,5 +60,32 @@ mut('c14-skipcase-upper', 'C14', GIO, "'values': ['L'*length],", "'values': ['U'
 mut('c14-totalprob-not-first', 'C14', GIO, "prob = float(split_values[1]) / total_prob", "prob = float(split_values[1]) / (total_prob if base_structures else 1.0)")
 mut('c14-load-ignores-saved-flags', 'C14', 'pcfg_guesser.py', "        program_info['skip_brute'] = save_config.getboolean('rule_info','skip_brute')", "        pass")
 mut('c14-skipbrute-keeps-M', 'C14', GIO, "if not skip_brute or 'M' not in new_base['replacements']:", "if not skip_brute or 'M' not in new_base['replacements'] or len(base_structures) == 0:")
+# ---- C03 / C06 (trainer side)
+AD = 'lib_trainer/detection_rules/alpha_detection.py'; PP = 'lib_trainer/pcfg_password_parser.py'; CP = 'lib_trainer/calculate_probabilities.py'; RT = 'lib_trainer/run_trainer.py'
+mut('c03-alpha-saved-unlowered', ['C06'], AD, "working_string[start_pos:end_pos + 1]", "section[0][start_pos:end_pos + 1]")
+mut('c03-mask-isupper-to-not-islower', 'C03', AD, "if letter.isupper():", "if not letter.islower():", benign=True, desc='differs only for caseless letters, where U and L masks give the same string')
+mut('c03-mask-first-letter-only', ['C03', 'C06'], AD, "if letter.isupper():", "if letter.isupper() and len(mask) == 0:")
+mut('c03-guesser-C-before-A', 'C03', GIO, "replacement.insert(i+1,'C' + len_str)", "replacement.insert(i+1,'C' + len_str) if i % 2 == 0 else replacement.insert(i+1, 'C' + len_str) or replacement.__setitem__(i+1, replacement[i+1])", benign=True)
+mut('c06-most-common-to-items', 'C06', CP, "prob_list = counter.most_common()", "prob_list = list(counter.items())")
+mut('c06-total-off', 'C06', CP, "total_count = sum(counter.values())", "total_count = sum(counter.values()) + (1 if len(counter) > 3 else 0)")
+mut('c06-coverage-formula', 'C06', RT, "markov_instances = (num_valid_passwords / program_info['coverage']) - num_valid_passwords", "markov_instances = num_valid_passwords * (1 - program_info['coverage'])")
+mut('c06-unsupported-counted', 'C06', PP, "        if is_supported:", "        if is_supported or len(section_list) > 2:")
+mut('c06-len-index-off', ['C06', 'C03'], PP, "input_counter[len(item)][item] +=1", "input_counter[len(item) if len(item) < 6 else 6][item] +=1", nth=0)
+mut('c06-config-list-from-other-counter', 'C06', 'lib_trainer/config_file.py', "add_digits(config,create_filename_list(pcfg_parser.count_digits))", "add_digits(config,create_filename_list(pcfg_parser.count_other))")
+# ---- C05
+DR = 'lib_trainer/detection_rules/'
+mut('c05-digit-endpos-swapped', 'C05', DR + 'digit_detection.py', "                    end_pos = pos - 1", "                    end_pos = pos - 1 if pos > 1 else pos")
+mut('c05-year-next-digit-check-off', 'C05', DR + 'year_detection.py', "if working_string[start_index + 4].isdigit():", "if working_string[start_index + 4].isdigit() and start_index > 0:")
+mut('c05-year-prev-digit-check-dropped', 'C05', DR + 'year_detection.py', "if working_string[start_index -1].isdigit():", "if working_string[start_index -1].isdigit() and start_index > 2:")
+mut('c05-context-drops-suffix', 'C05', DR + 'context_sensitive_detection.py', "if start_index + len(replacement) < len(working_string):", "if start_index + len(replacement) < len(working_string) - 1:")
+mut('c05-context-hash1-lookahead', 'C05', DR + 'context_sensitive_detection.py', "if working_string[start_index + 3].isdigit():", "if working_string[start_index + 2].isdigit():", benign=True, desc='changes which strings count as #1 context, both readings are sound tilings')
+mut('c05-multiword-threshold-gt', 'C05', DR + 'multiword_detector.py', "if self._get_count(alpha_string[0:index]) >= self.threshold:", "if self._get_count(alpha_string[0:index]) >= self.threshold - 1:")
+mut('c05-multiword-minlen', 'C05', DR + 'multiword_detector.py', "for index in range(max_index, self.min_len - 1, -1):", "for index in range(max_index + 1, self.min_len - 2, -1):", benign=True, desc='3-letter parts are never counted by train(), so the wider range changes nothing')
+mut('c05-keyboard-classes', 'C05', DR + 'keyboard_walk.py', "if (alpha + special + digit) >= 2:", "if (alpha + special + digit) >= 1:")
+mut('c05-keyboard-minrun', 'C05', DR + 'keyboard_walk.py', "def detect_keyboard_walk(password, min_keyboard_run=4):", "def detect_keyboard_walk(password, min_keyboard_run=3):")
+mut('c05-alpha-mask-offset', 'C05', AD, "for letter in section[0][current_start:current_start+len(word)]:", "for letter in section[0][current_start:current_start+len(word)][::-1]:", desc='mask reversed: counters no longer the tally (C06 catches the file), segments stay sound')
+mut('c05-other-swallows-digit', 'C05', DR + 'digit_detection.py', "        if value.isdigit():", "        if value.isdigit() and value != '0':", more=[(DR + 'digit_detection.py', "if not value.isdigit() or pos ==", "if not (value.isdigit() and value != '0') or pos ==", 0)])
+mut('c05-website-keeps-case', 'C05', DR + 'website_detection.py', "parsing.append((working_string[start_of_url:end_of_url],'W'))", "parsing.append((section[0][start_of_url:end_of_url],'W'))", desc='W segment kept in original case although the property says website segments are kept lower-cased')
+mut('c05-prince-counts-twice', 'C05', 'lib_trainer/prince_metrics.py', "count_prince[item[1]] += 1", "count_prince[item[1]] += 1 if item[1][0] != 'Y' else 2")
 json.dump(M, open(os.path.join(os.path.dirname(os.path.abspath(__file__)), 'mutants.json'), 'w'), indent=1)
 print(len(M), 'mutants')
